@@ -73,7 +73,11 @@ class Array(np.ndarray):
             try:
                 res[:r, :c] = self
             except ValueError:
-                res[:, :] = self.collapse(shape)
+                value = self.collapse(shape)
+                if value is self._collapse_value and value is not None:
+                    res[:, :] = value
+                else:  # Drop the surplus rows and columns.
+                    res[:r, :c] = self[:res.shape[0], :res.shape[1]]
             return res
 
     def collapse(self, shape):
